@@ -9,7 +9,8 @@ git -C /repo worktree add -q --detach $W HEAD || exit 2
 cd $W
 DEMO=$DEST/zz_seed_demo_test.go
 cp $SRC/demo_test.go $DEMO
-R1=$(go test -vet=off -count=1 -timeout 300s ./$DEST/ 2>&1 | tail -3)
+RUN=$(grep -oE "^func (Test[A-Za-z0-9_]+)" $SRC/demo_test.go | sed "s/func //" | paste -sd"|")
+R1=$(go test -vet=off -count=1 -timeout 300s -run "^($RUN)\$" ./$DEST/ 2>&1 | tail -3)
 echo "$R1" | grep -q "^ok" && BASE_OK=yes || BASE_OK=no
 rm -f $DEMO
 git apply $SRC/patch.diff 2>/tmp/sv/$NAME.apply.err && APPLY=yes || APPLY=no
@@ -19,7 +20,7 @@ if [ $APPLY = yes ]; then
   S=$(go test -vet=off -count=1 -timeout 25m ./... 2>&1 | grep -E "^(FAIL|--- FAIL|panic)" | head -5)
   [ -z "$S" ] && SUITE=yes
   cp $SRC/demo_test.go $DEMO
-  R2=$(go test -vet=off -count=1 -timeout 300s ./$DEST/ 2>&1 | tail -40)
+  R2=$(go test -vet=off -count=1 -timeout 300s -run "^($RUN)\$" ./$DEST/ 2>&1 | tail -40)
   echo "$R2" | grep -qE "^(FAIL|--- FAIL|panic)" && DEMOFAIL=yes
 fi
 echo "SEED $NAME demo_passes_on_head=$BASE_OK applies=$APPLY builds=$BUILD suite_passes=$SUITE demo_fails_with_patch=$DEMOFAIL suite_failures=[$S]"
